@@ -2,6 +2,7 @@ package php
 
 import (
 	"fmt"
+	"reflect"
 	"regexp"
 	"strings"
 
@@ -186,7 +187,7 @@ func defaultValueForTypeRec(config Config, schemas ast.Schemas, typeDef ast.Type
 		if found && referredObj.Type.IsEnum() {
 			enumName := formatObjectName(referredObj.Type.AsEnum().Values[0].Name)
 			for _, enumValue := range referredObj.Type.AsEnum().Values {
-				if enumValue.Value == typeDef.Default {
+				if reflect.DeepEqual(enumValue.Value, typeDef.Default) {
 					enumName = formatEnumMemberName(enumValue.Name)
 					break
 				}
